@@ -28,6 +28,7 @@ class _Fn:
     def __init__(self, key: str, name: str):
         self.key, self.name = key, name
         self.calls: Set[str] = set()
+        self.calls2: Set[Tuple[str, str]] = set()  # (self | super | other, name)
         self.enables: List[str] = []
 
 
@@ -63,6 +64,13 @@ def _collect() -> Dict[str, _Fn]:
                             nm = g.attr if isinstance(g, ast.Attribute) else g.id if isinstance(g, ast.Name) else None
                             if nm:
                                 cur.calls.add(nm)
+                                kind = "other"
+                                if isinstance(g, ast.Attribute):
+                                    if isinstance(g.value, ast.Name) and g.value.id == "self":
+                                        kind = "self"
+                                    elif isinstance(g.value, ast.Call) and isinstance(g.value.func, ast.Name) and g.value.func.id == "super":
+                                        kind = "super"
+                                cur.calls2.add((kind, nm))
                             if isinstance(g, ast.Attribute) and g.attr in ("enable", "enable_port"):
                                 cur.enables.append(_u(g))
                         if isinstance(ch, ast.Assign) and any(isinstance(t, ast.Attribute) and t.attr == "enabled" for t in ch.targets) \
@@ -239,6 +247,226 @@ def _router_arp() -> List[str]:
     return out
 
 
+
+# ------------------------------------------------------------------------------------------ per-class receive paths (SoftKeeps)
+NET_BOUNDARY = {"send_frame", "transmit_frame", "receive_frame"}
+NODE_CLASSES = {"router": ("network/hardware/nodes/network/router.py", "Router"),
+                "firewall": ("network/hardware/nodes/network/firewall.py", "Firewall"),
+                "switch": ("network/hardware/nodes/network/switch.py", "Switch"),
+                "host": ("network/hardware/nodes/host/host_node.py", "HostNode")}
+
+
+def _mro(c: str) -> List[str]:
+    out: List[str] = []
+
+    def go(x: str):
+        if x in out:
+            return
+        out.append(x)
+        for b in CLASSES.get(x, []):
+            go(b)
+    go(c)
+    return out
+
+
+def _receive_reach(fns: Dict[str, _Fn], cls: str) -> Tuple[bool, bool, int]:
+    """What the code run by `<cls>.receive(payload, …)` can reach WITHOUT leaving the node: calls on `self` / `super()` are resolved
+    in the class's own ancestor chain, every other call by name over simulator/ (over-approximation); the traversal stops at the
+    network boundary (`send_frame`, `transmit_frame`, `receive_frame`: what a frame does elsewhere is the cut theorem's business)
+    and at the request dispatcher, which is recorded.  Returns (reaches an enable site, reaches the dispatcher, functions visited)."""
+    by_cls: Dict[Tuple[str, str], _Fn] = {}
+    by_name: Dict[str, List[_Fn]] = {}
+    for fn in fns.values():
+        q = fn.key.split(":")[1].split(".")
+        if fn.name == "<lambda>":
+            continue
+        if len(q) == 2:
+            by_cls[(q[0], q[1])] = fn
+        if fn.name not in ("__init__", "model_post_init", "__post_init__"):  # constructors: reached through the class rule only
+            by_name.setdefault(fn.name, []).append(fn)
+    mro = _mro(cls)
+
+    def in_mro(m: str) -> List[_Fn]:
+        return [by_cls[(c, m)] for c in mro if (c, m) in by_cls]
+
+    todo: List[Tuple[_Fn, bool]] = [(f, True) for f in in_mro("receive")]
+    if not todo:
+        raise RuntimeError(f"class {cls} has no receive method in its ancestor chain")
+    seen = {f.key for f, _ in todo}
+    enable = dispatch = False
+    while todo:
+        fn, own = todo.pop()
+        if fn.enables:
+            enable = True
+        for kind, nm in sorted(fn.calls2):
+            if nm in DISPATCH:
+                dispatch = True
+                continue
+            if nm in NET_BOUNDARY:
+                continue
+            if own and kind in ("self", "super") and in_mro(nm):
+                targets = [(g, True) for g in in_mro(nm)]
+            else:
+                targets = [(g, False) for g in by_name.get(nm, [])]
+                if nm in CLASSES:
+                    targets += [(g, False) for c in _mro(nm) for g in [by_cls.get((c, "__init__")), by_cls.get((c, "model_post_init"))] if g]
+            for g, o in targets:
+                if fn.key.startswith("system/") and g.key.startswith(BUILDERS):
+                    continue
+                if g.key not in seen:
+                    seen.add(g.key)
+                    todo.append((g, o))
+    return enable, dispatch, len(seen)
+
+
+def _system_software() -> List[Tuple[str, List[str]]]:
+    """Software every router / firewall / switch / host carries as shipped: the class's SYSTEM_SOFTWARE (inherited unless
+    overridden) plus the `self.software_manager.install(X)` calls of `_install_system_software` along the ancestor chain that
+    the method's own `super()` call follows."""
+    out = []
+    for label, (rel, cls) in NODE_CLASSES.items():
+        names: List[str] = []
+        chain = _mro(cls)
+        # SYSTEM_SOFTWARE: first class in the chain that defines it
+        found = None
+        for c in chain:
+            for f in sorted(SIM.rglob("*.py")):
+                tree = ast.parse(f.read_text())
+                for n in ast.walk(tree):
+                    if isinstance(n, ast.ClassDef) and n.name == c:
+                        for st in n.body:
+                            if isinstance(st, ast.AnnAssign) and isinstance(st.target, ast.Name) and st.target.id == "SYSTEM_SOFTWARE":
+                                found = found or (c, st.value)
+            if found:
+                break
+        if found is None:
+            raise RuntimeError(f"{cls}: SYSTEM_SOFTWARE not found")
+        val = found[1]
+        if not isinstance(val, ast.Dict):
+            raise RuntimeError(f"{found[0]}.SYSTEM_SOFTWARE is not a dict literal")
+        for k, v in zip(val.keys, val.values):
+            if k is None:
+                raise RuntimeError(f"{found[0]}.SYSTEM_SOFTWARE uses ** expansion")
+            names.append(_u(v))
+        # _install_system_software along the chain
+        for c in chain:
+            try:
+                fn = _any_method(c, "_install_system_software")
+            except RuntimeError:
+                continue
+            body = [s for s in _strip(fn)]
+            calls_super = any("super()._install_system_software()" in _u(s) for s in body)
+            for n in ast.walk(fn):
+                if isinstance(n, ast.Call) and _u(n.func) == "self.software_manager.install":
+                    a = n.args[0]
+                    if isinstance(a, ast.Name) and a.id != "software_class":
+                        names.append(a.id)
+            if not calls_super:
+                if c == "Switch" and [_u(s) for s in body] == ["pass"]:
+                    names = []  # a switch installs nothing (and never calls the base method)
+                break
+        out.append((label, sorted(set(names))))
+    return out
+
+
+def _any_method(cls: str, name: str) -> ast.FunctionDef:
+    for f in sorted(SIM.rglob("*.py")):
+        tree = ast.parse(f.read_text())
+        for c in ast.walk(tree):
+            if isinstance(c, ast.ClassDef) and c.name == cls:
+                for m in c.body:
+                    if isinstance(m, ast.FunctionDef) and m.name == name:
+                        return m
+    raise RuntimeError(f"{cls}.{name} not found")
+
+
+def _switch_receive() -> List[str]:
+    body = [s for s in _strip(_fn("network/hardware/nodes/network/switch.py", "Switch", "receive_frame")) if not _is_log(s)]
+    txt = [_u(s) for s in body]
+    want = ["src_mac = frame.ethernet.src_mac_addr", "dst_mac = frame.ethernet.dst_mac_addr",
+            "self._add_mac_table_entry(src_mac, from_network_interface)", "outgoing_port = self.mac_address_table.get(dst_mac)"]
+    if txt[:4] != want or len(body) != 5 or not isinstance(body[4], ast.If):
+        raise RuntimeError("Switch.receive_frame: unrecognised shape: " + repr(txt[:4]))
+    br = body[4]
+    if _u(br.test) != "outgoing_port and dst_mac.lower() != 'ff:ff:ff:ff:ff:ff'" or [_u(x) for x in br.body] != ["outgoing_port.send_frame(frame)"]:
+        raise RuntimeError("Switch.receive_frame: unicast branch changed")
+    loop = [x for x in br.orelse if not _is_log(x)]
+    if not (len(loop) == 1 and isinstance(loop[0], ast.For) and _u(loop[0].iter) == "self.network_interface.values()"
+            and len(loop[0].body) == 1 and isinstance(loop[0].body[0], ast.If)
+            and _u(loop[0].body[0].test) == "port.enabled and port != from_network_interface"
+            and [_u(x) for x in loop[0].body[0].body] == ["port.send_frame(frame)"]):
+        raise RuntimeError("Switch.receive_frame: flood loop changed")
+    # nothing in the method assigns to the frame
+    for n in ast.walk(_fn("network/hardware/nodes/network/switch.py", "Switch", "receive_frame")):
+        if isinstance(n, (ast.Assign, ast.AugAssign)):
+            tg = n.targets if isinstance(n, ast.Assign) else [n.target]
+            if any(_u(t).startswith("frame") for t in tg):
+                raise RuntimeError("Switch.receive_frame writes to the frame")
+    return ["learn:_add_mac_table_entry(src_mac, from_port)", "lookup:mac_address_table.get(dst_mac)",
+            "unicast:outgoing_port.send_frame(frame)", "flood:for-port-if-enabled-and-not-from:port.send_frame(frame)"]
+
+
+def _arp_sites() -> Tuple[List[str], List[str]]:
+    """every `ARPPacket(...)` construction and every caller of `send_arp_reply` under src/primaite (not only simulator/)"""
+    sites, callers = [], []
+    root = SRC
+    for f in sorted(root.rglob("*.py")):
+        rel = str(f.relative_to(root))
+        rel = rel[len("simulator/"):] if rel.startswith("simulator/") else "../" + rel
+        tree = ast.parse(f.read_text())
+
+        def visit(node, scope):
+            for ch in ast.iter_child_nodes(node):
+                if isinstance(ch, (ast.ClassDef, ast.FunctionDef, ast.AsyncFunctionDef)):
+                    visit(ch, scope + [ch.name])
+                else:
+                    if isinstance(ch, ast.Call):
+                        g = ch.func
+                        nm = g.attr if isinstance(g, ast.Attribute) else g.id if isinstance(g, ast.Name) else None
+                        if nm == "ARPPacket":
+                            sites.append(f"{rel}:{'.'.join(scope)}")
+                        if nm == "send_arp_reply":
+                            callers.append(f"{rel}:{'.'.join(scope)}")
+                    visit(ch, scope)
+        visit(tree, [])
+    return sorted(sites), sorted(callers)
+
+
+def _generate_reply() -> List[str]:
+    fn = _fn("network/protocols/arp.py", "ARPPacket", "generate_reply")
+    body = _strip(fn)
+    if not (len(body) == 1 and isinstance(body[0], ast.Return) and isinstance(body[0].value, ast.Call) and _u(body[0].value.func) == "ARPPacket"):
+        raise RuntimeError("ARPPacket.generate_reply: unrecognised shape")
+    return sorted(f"{k.arg}={_u(k.value)}" for k in body[0].value.keywords)
+
+
+def _session_arp_branch() -> List[str]:
+    fn = _fn("system/core/session_manager.py", "SessionManager", "receive_payload_from_software_manager")
+    first = _strip(fn)[0]
+    if not (isinstance(first, ast.If) and _u(first.test) == "isinstance(payload, ARPPacket)"):
+        raise RuntimeError("receive_payload_from_software_manager: does not start with the ARP branch")
+    txt = [_u(s) for s in first.body]
+    want = ["if payload.request:\n    dst_mac_address = 'ff:ff:ff:ff:ff:ff'\nelse:\n    dst_mac_address = payload.target_mac_addr",
+            "outbound_network_interface = self.resolve_outbound_network_interface(payload.target_ip_address)",
+            "is_broadcast = payload.request", "ip_protocol = PROTOCOL_LOOKUP['UDP']"]
+    if txt != want:
+        raise RuntimeError("receive_payload_from_software_manager: ARP branch changed: " + repr(txt))
+    return ["request:dst_mac=broadcast", "reply:dst_mac=payload.target_mac_addr", "outbound=resolve(payload.target_ip_address)",
+            "protocol=udp"]
+
+
+def _host_arp_request() -> List[str]:
+    body = [s for s in _strip(_fn("network/hardware/nodes/host/host_node.py", "HostARP", "_process_arp_request")) if not _is_log(s)]
+    txt = [_u(s) for s in body]
+    if not (len(body) == 4 and "super()._process_arp_request" in txt[0] and isinstance(body[1], ast.If)
+            and _u(body[1].test) == "arp_packet.target_ip_address != from_network_interface.ip_address"
+            and [_u(x) for x in body[1].body if not _is_log(x)] == ["return"]
+            and txt[2] == "arp_packet = arp_packet.generate_reply(from_network_interface.mac_address)"
+            and txt[3] == "self.send_arp_reply(arp_packet)"):
+        raise RuntimeError("HostARP._process_arp_request: unrecognised shape: " + repr(txt))
+    return ["guard:target-is-not-arrival-interface-return", "reply=generate_reply(arrival-interface.mac)", "send_arp_reply(reply)"]
+
+
 def _l(xs: List[str]) -> str:
     return "[" + ", ".join('"' + x.replace('"', "'") + '"' for x in xs) + "]"
 
@@ -248,6 +476,13 @@ def emit() -> str:
     seen, dispatch = _reach(fns)
     sites = sorted(f"{fn.key}: {e}" for fn in fns.values() for e in fn.enables)
     on_path = sorted(f"{fn.key}: {e}" for fn in fns.values() for e in fn.enables if fn.key in seen)
+    arp_sites, arp_callers = _arp_sites()
+    sysw = _system_software()
+    classes = sorted({c for _, cs in sysw for c in cs})
+    reach = []
+    for c in classes:
+        e, d, _n = _receive_reach(fns, c)
+        reach.append((c, e, d))
     return f"""namespace Primaite.Gen.FilterSoft
 /-- every site under simulator/ that enables an interface / port (or a service, an account: same method name) -/
 def enableSites : List String := {_l(sites)}
@@ -261,5 +496,23 @@ def sendArpRequest : List String := {_l(_send_arp_request())}
 /-- `RouterARP._process_arp_request`, `ARP.send_arp_reply`, `RouterSessionManager.resolve_outbound_network_interface`,
 first guards of `Router.process_frame` -/
 def routerArp : List String := {_l(_router_arp())}
+/-- `Switch.receive_frame`, statement by statement; the method never writes to the frame -/
+def switchReceive : List String := {_l(_switch_receive())}
+/-- every `ARPPacket(..)` construction under src/primaite -/
+def arpPacketSites : List String := {_l(arp_sites)}
+/-- every caller of `send_arp_reply` under src/primaite -/
+def arpReplyCallers : List String := {_l(arp_callers)}
+/-- keyword arguments of the `ARPPacket(..)` that `generate_reply` returns -/
+def generateReply : List String := {_l(_generate_reply())}
+/-- the `isinstance(payload, ARPPacket)` branch of `receive_payload_from_software_manager` -/
+def sessionArpBranch : List String := {_l(_session_arp_branch())}
+/-- `HostARP._process_arp_request` -/
+def hostArpRequest : List String := {_l(_host_arp_request())}
+/-- software a node of each kind carries as shipped (class names) -/
+def systemSoftware : List (String × List String) := [{", ".join(f'("{a}", {_l(b)})' for a, b in sysw)}]
+/-- per shipped software class: can the code run by its `receive` reach (enable site, request dispatcher) without leaving
+the node?  (`self`/`super()` calls resolved in the class's ancestor chain, other calls by name; stops at send_frame /
+transmit_frame / receive_frame) -/
+def receiveReach : List (String × Bool × Bool) := [{", ".join(f'("{c}", {"true" if e else "false"}, {"true" if d else "false"})' for c, e, d in reach)}]
 end Primaite.Gen.FilterSoft
 """
